@@ -136,6 +136,14 @@ def gen_jobs(tier, seed):
             # every parameter positional-only
             for m in methods:
                 m["posonly"] = len(m["pos"])
+        if q % 11 == 5 and not with_inst:
+            # a single method whose annotation is a union of type[...] arms: applicable to a passed type iff some arm admits it
+            a1, a2 = rng.sample(tynodes, 2)
+            methods = [worlds.mkmethod("m1", 1, [1])]
+            methods[0]["pos"] = [{"k": "union", "args": [worlds.cls(a1), worlds.cls(a2)]}]
+            methods[0]["bare"] = False
+            w["methods"] = methods
+            calls = [c for c in calls if not c["pos"][0].get("any") and c["pos"][0]["c"] != 1]
         jobs.append({"id": f"C14-{q}", "world": w, "calls": calls})
     return jobs
 
